@@ -202,6 +202,13 @@ impl TxGen<'_, '_> {
         if !self.g.chance(self.p.funds, 16) {
             return vec![];
         }
+        // rarely: more coins than any small-size fast path takes (nine to twelve denominations, most of which
+        // an ordinary sender does not own)
+        if self.g.chance(1, 30) {
+            let n = 9 + self.g.below(4);
+            let first = self.g.below(DENOMS.len());
+            return (0..n).map(|i| CoinSpec { denom: ((first + i) % DENOMS.len()) as u8, amt: Amt::Exact(1 + self.g.below(2) as u128) }).collect();
+        }
         let n = 1 + self.g.weighted(&[8, 2, 1]);
         (0..n)
             .map(|_| {
@@ -332,6 +339,9 @@ impl TxGen<'_, '_> {
             } else {
                 self.g.pick(pool_edge).to_string()
             }
+        } else if self.g.chance(1, 40) {
+            // a perfectly good string behind (and before) a lot of white space
+            format!("{}{}{}", " ".repeat(self.g.pick(&[62usize, 63, 64, 65, 130, 300])), self.g.pick(pool_good), " ".repeat(self.g.below(3) * 40))
         } else {
             self.g.pick(pool_good).to_string()
         }
@@ -388,10 +398,12 @@ impl TxGen<'_, '_> {
                 })),
                 _ => {
                     // mostly short; sometimes around the one-byte / two-byte length boundaries of the encodings
-                    let len = match self.g.weighted(&[4, 1, 1]) {
+                    let len = match self.g.weighted(&[12, 3, 3, 1]) {
                         0 => 1 + self.g.below(40),
                         1 => 120 + self.g.below(16),
-                        _ => 250 + self.g.below(60),
+                        2 => 250 + self.g.below(60),
+                        // beyond two- and three-byte length prefixes
+                        _ => self.g.pick(&[16383usize, 16384, 16385, 16500, 70_000]),
                     };
                     DataSpec::Some(Hx((0..len).map(|_| self.g.byte()).collect()))
                 }
@@ -421,11 +433,41 @@ impl TxGen<'_, '_> {
                 n.writes.push(Write::Set(Hx(k), Hx(v)));
             }
         }
+        // sometimes: a key is removed and put back with one of the constant values (which an earlier call may
+        // well have stored under it)
+        if self.g.chance(1, 12) {
+            let k = self.key();
+            let v = self.g.pick(&[&[1u8][..], &[2], &[1, 1]]).to_vec();
+            n.writes.push(Write::Remove(Hx(k.clone())));
+            n.writes.push(Write::Set(Hx(k), Hx(v)));
+        }
         // (hostile-key profile) rarely: a contract that holds more than a hundred entries
         if self.p.hostile_keys && self.g.chance(1, 50) {
             let m = 101 + self.g.below(30);
             for i in 0..m {
                 n.writes.push(Write::Set(Hx(vec![0x62, (i / 256) as u8, (i % 256) as u8]), Hx(vec![1 + (i % 200) as u8])));
+            }
+        }
+        // rarely: one call that rewrites a handful of keys many times over (beyond 64 / 128 / 256 operations in
+        // one layer of the write cache); the last write of every key must be the one that counts
+        if self.g.chance(1, 40) {
+            let m = match self.g.below(3) {
+                0 => 66 + self.g.below(25),
+                1 => 129 + self.g.below(12),
+                _ => 257 + self.g.below(44),
+            };
+            let nk = 1 + self.g.below(4);
+            let keys: Vec<Vec<u8>> = (0..nk).map(|_| self.g.pick(&KEY_POOL).to_vec()).collect();
+            for i in 0..m {
+                let k = keys[self.g.below(nk)].clone();
+                if self.g.chance(1, 12) {
+                    n.writes.push(Write::Remove(Hx(k)));
+                } else {
+                    // half of the values come from the small constant pool: a key is removed and set back to what
+                    // an earlier transaction committed
+                    let v = if self.g.bool() { self.g.pick(&[&[1u8][..], &[2], &[1, 1]]).to_vec() } else { vec![self.txno, idx as u8, (i / 250) as u8 + 1, (i % 250) as u8 + 1] };
+                    n.writes.push(Write::Set(Hx(k), Hx(v)));
+                }
             }
         }
         if self.g.chance(self.p.queries, 16) {
@@ -556,6 +598,7 @@ impl TxGen<'_, '_> {
         let label = match self.g.weighted(&[12, 1, 2]) {
             0 => format!("label{}", self.g.below(4)),
             1 => String::new(),
+            _ if self.g.chance(1, 3) => "long label ".repeat(self.g.pick(&[11usize, 12, 24, 100])) + "é",
             _ => self.g.pick(&["étiquette ✓", " padded ", "\ttab\n", " ", "\u{3000}", "x"]).to_string(),
         };
         let admin = match self.g.weighted(&[3, 4, 2]) {
@@ -634,6 +677,15 @@ pub fn gen_history(g: &mut Gen, p: &Profile, contracts_hint: &[&str]) -> History
     // the first contract and whose second message (not a wasm one) fails; then queries about that contract
     let failed_batch = !self_admin && p.query_tx_w >= 5 && g.chance(1, 6);
     let unbond_pair = staking && g.chance(1, 4);
+    let storm = g.chance(1, 40);
+    // scenario template: one account is credited seven times in a row (mints and a payment), never debited
+    let credits = g.chance(1, 30);
+    // scenario template: a new block, then the first contract is migrated to another code and back to its first one
+    let there_and_back = !self_admin && !failed_batch && g.chance(1, 25);
+    // scenario template: the first contract creates a child, its admin hands it over, a third party migrates the
+    // child, then the old and the new admin each try to migrate the first contract
+    let family = !self_admin && !failed_batch && !there_and_back && g.chance(1, 25);
+    let wide_send = g.chance(1, 30);
     for t in 0..(ninit + ntx) {
         if failed_batch && t == ninit {
             let mut tg = TxGen { staking, g, p, nodes: vec![], qnodes: vec![], budget: p.max_nodes, uniq: 0, txno: 201, wcount: 0, hostile: hostile.clone() };
@@ -663,11 +715,102 @@ pub fn gen_history(g: &mut Gen, p: &Profile, contracts_hint: &[&str]) -> History
                 let msgs = vec![
                     Msg::Delegate { v: d0.0, amt: d0.1 },
                     Msg::Delegate { v: d1.0, amt: d1.1 },
-                    Msg::Undelegate { v: u0.0, amt: u0.1 },
+                    Msg::Undelegate { v: u0.0, amt: u0.1.clone() },
                     Msg::Undelegate { v: u1.0, amt: u1.1 },
+                    // once more from the first validator: two entries of one delegation with one completion time
+                    Msg::Undelegate { v: u0.0, amt: u0.1 },
                 ];
                 txs.push(Tx { kind: TxKind::Multi { sender: ARef::User(u), msgs }, nodes: vec![], qnodes: vec![] });
             }
+            // a block passes before anything matures
+            txs.push(Tx { kind: TxKind::Block { dh: 1, dt: 1, set: false, chain: None }, nodes: vec![], qnodes: vec![] });
+        }
+        if credits && t == ninit {
+            let to = if g.bool() { ARef::C(CRef(0)) } else { ARef::User(2) };
+            for i in 0..6u128 {
+                txs.push(Tx { kind: TxKind::BankMint { to, coins: vec![CoinSpec { denom: 0, amt: Amt::Exact(1 + i) }] }, nodes: vec![], qnodes: vec![] });
+            }
+            let mut tg = TxGen { staking, g, p, nodes: vec![], qnodes: vec![], budget: p.max_nodes, uniq: 0, txno: 214, wcount: 0, hostile: hostile.clone() };
+            let node = tg.node(p.max_depth, false);
+            let TxGen { nodes, qnodes, .. } = tg;
+            let msg = match to {
+                ARef::C(c) => Msg::Exec { c, node, funds: vec![CoinSpec { denom: 0, amt: Amt::Exact(1) }] },
+                _ => Msg::Send { to, coins: vec![CoinSpec { denom: 0, amt: Amt::Exact(1) }] },
+            };
+            txs.push(Tx { kind: TxKind::Exec { sender: ARef::User(0), msg, via: Via::Execute }, nodes, qnodes });
+        }
+        if family && t == ninit {
+            {
+                let mut tg = TxGen { staking, g, p, nodes: vec![], qnodes: vec![], budget: p.max_nodes, uniq: 0, txno: 210, wcount: 0, hostile: hostile.clone() };
+                let leaf = tg.node(p.max_depth, false);
+                tg.nodes[leaf].fail = false;
+                let child = Msg::Inst { code: KRef(tg.g.below(3) as u8), node: leaf, funds: vec![], label: "child".into(), admin: Some(ARef::User(2)), salt: None };
+                let root = tg.node(p.max_depth, false);
+                tg.nodes[root].fail = false;
+                let mut sub = tg.sub_with(p.max_depth, Some(child));
+                if sub.reply != usize::MAX {
+                    tg.nodes[sub.reply].fail = false;
+                }
+                if sub.reply_on == RO::Error {
+                    sub.reply_on = RO::Never;
+                }
+                tg.nodes[root].subs.push(sub);
+                let TxGen { nodes, qnodes, .. } = tg;
+                txs.push(Tx { kind: TxKind::Exec { sender: ARef::User(0), msg: Msg::Exec { c: CRef(0), node: root, funds: vec![] }, via: Via::Execute }, nodes, qnodes });
+            }
+            txs.push(Tx { kind: TxKind::Exec { sender: ARef::User(0), msg: Msg::UpdateAdmin { c: CRef(0), admin: ARef::User(1) }, via: Via::Execute }, nodes: vec![], qnodes: vec![] });
+            for (who, target, txno) in [(2u8, ninit as u8, 211u8), (0, 0, 212), (1, 0, 213)] {
+                let mut tg = TxGen { staking, g, p, nodes: vec![], qnodes: vec![], budget: p.max_nodes, uniq: 0, txno, wcount: 0, hostile: hostile.clone() };
+                let node = tg.node(p.max_depth, false);
+                tg.nodes[node].fail = false;
+                let code = KRef(tg.g.below(3) as u8);
+                let TxGen { nodes, qnodes, .. } = tg;
+                txs.push(Tx { kind: TxKind::Exec { sender: ARef::User(who), msg: Msg::Migrate { c: CRef(target), code, node }, via: Via::Execute }, nodes, qnodes });
+            }
+        }
+        if there_and_back && t == ninit {
+            txs.push(Tx { kind: TxKind::Block { dh: 1, dt: 5, set: false, chain: None }, nodes: vec![], qnodes: vec![] });
+            for code in [1u8, 0] {
+                let mut tg = TxGen { staking, g, p, nodes: vec![], qnodes: vec![], budget: p.max_nodes, uniq: 0, txno: 204 + code, wcount: 0, hostile: hostile.clone() };
+                let node = tg.node(p.max_depth.saturating_sub(1), false);
+                let TxGen { nodes, qnodes, .. } = tg;
+                txs.push(Tx { kind: TxKind::Exec { sender: ARef::User(0), msg: Msg::Migrate { c: CRef(0), code: KRef(code), node }, via: Via::Execute }, nodes, qnodes });
+            }
+        }
+        if storm && t == ninit {
+            // scenario template: one call whose entry point dispatches several dozen sub-messages that fail and
+            // are caught by reply, then two that succeed; whatever a caught failure leaves behind adds up
+            let mut tg = TxGen { staking, g, p, nodes: vec![], qnodes: vec![], budget: 200, uniq: 0, txno: 203, wcount: 0, hostile: hostile.clone() };
+            let root = tg.node(p.max_depth, false);
+            tg.nodes[root].fail = false;
+            let k = 33 + tg.g.below(6);
+            for i in 0..k + 2 {
+                let leaf = tg.node(p.max_depth, false);
+                tg.nodes[leaf].fail = i < k;
+                let target = CRef(1 + tg.g.below(2) as u8);
+                let mut sub = tg.sub_with(p.max_depth, Some(Msg::Exec { c: target, node: leaf, funds: vec![] }));
+                sub.reply_on = if i < k { if tg.g.bool() { RO::Error } else { RO::Always } } else { tg.g.pick(&[RO::Success, RO::Always, RO::Never]) };
+                if sub.reply == usize::MAX && sub.reply_on != RO::Never {
+                    sub.reply = tg.node(p.max_depth + 1, true);
+                }
+                if sub.reply != usize::MAX {
+                    tg.nodes[sub.reply].fail = false;
+                }
+                tg.nodes[root].subs.push(sub);
+            }
+            let kind = TxKind::Exec { sender: ARef::User(0), msg: Msg::Exec { c: CRef(0), node: root, funds: vec![] }, via: Via::Execute };
+            let TxGen { nodes, qnodes, .. } = tg;
+            txs.push(Tx { kind, nodes, qnodes });
+        }
+        if wide_send && t == ninit {
+            // scenario template: an account holding every denomination sends all of them in one message
+            let all = |base: u128| -> Vec<CoinSpec> { (0..DENOMS.len()).rev().map(|d| CoinSpec { denom: d as u8, amt: Amt::Exact(base + d as u128) }).collect() };
+            txs.push(Tx { kind: TxKind::BankMint { to: ARef::User(0), coins: all(3) }, nodes: vec![], qnodes: vec![] });
+            let mut coins = all(1);
+            let r = g.below(coins.len());
+            coins.rotate_left(r);
+            let to = if g.bool() { ARef::User(1) } else { ARef::C(CRef(0)) };
+            txs.push(Tx { kind: TxKind::Exec { sender: ARef::User(0), msg: Msg::Send { to, coins }, via: if g.bool() { Via::Execute } else { Via::Multi } }, nodes: vec![], qnodes: vec![] });
         }
         if self_admin && t == ninit {
             txs.push(Tx { kind: TxKind::Exec { sender: ARef::User(0), msg: Msg::UpdateAdmin { c: CRef(0), admin: ARef::C(CRef(0)) }, via: Via::Execute }, nodes: vec![], qnodes: vec![] });
@@ -700,7 +843,7 @@ pub fn gen_history(g: &mut Gen, p: &Profile, contracts_hint: &[&str]) -> History
             let node = tg.node(p.max_depth, false); // leaf-ish init node (no sub-messages)
             let code = if t < 2 { KRef(0) } else { KRef(tg.g.below(6) as u8) };
             let admin = match tg.g.below(3) {
-                _ if (self_admin || failed_batch) && t == 0 => Some(ARef::User(0)),
+                _ if (self_admin || failed_batch || there_and_back || family) && t == 0 => Some(ARef::User(0)),
                 0 => None,
                 _ => Some(ARef::User(tg.g.below(N_USERS) as u8)),
             };
